@@ -102,6 +102,23 @@ nprev(const struct lyd_node *n)
     return k;
 }
 
+/* a non-presence container flagged default although it has an explicit (non-default) child */
+static int
+np_stale(const struct lyd_node *first)
+{
+    const struct lyd_node *a, *c;
+
+    LY_LIST_FOR(first, a) {
+        if (a->schema && (a->schema->nodetype == LYS_CONTAINER) && !(a->schema->flags & LYS_PRESENCE) && (a->flags & LYD_DEFAULT)) {
+            LY_LIST_FOR(lyd_child(a), c) {
+                if (!(c->flags & LYD_DEFAULT)) return 1;
+            }
+        }
+        if (np_stale(lyd_child(a))) return 1;
+    }
+    return 0;
+}
+
 static int
 same(const struct lyd_node *a, const struct lyd_node *b, int dflt)
 {
@@ -203,6 +220,10 @@ op_law(const char *id, const struct tp_schema *s, const char *atok, const char *
         r1 = dumps_nonew(s, A2);
         bn = dumps_nonew(s, B);
         fprintf(stdout, " exact=%d", !strcmp(r1, bn));
+        if (dflt) {
+            /* printing the result with LYD_PRINT_WD_TRIM must not lose explicit nodes below a stale default container */
+            fprintf(stdout, " npstale=%d", np_stale(A2));
+        }
         if (!dflt) fprintf(stdout, " reval=%s", lyd_validate_module(&A2, s->mod, 0, NULL) ? "err" : "ok");
         fprintf(stdout, " cmp=%d", same(A2, B, dflt));
         if (!dflt) {
